@@ -10,12 +10,13 @@ structure Sound (L : DynLeaves MF Tok) (mode : Mode) where
   resolve : List UInt8 → List Tok → List UInt8
   resolve_nil : ∀ h, resolve h [] = []
   resolve_app : ∀ h a b, resolve h (a ++ b) = resolve h a ++ resolve (h ++ resolve h a) b
-  /-- MatchFinder.Sound: the new tokens spell out exactly the bytes consumed; flush consumes everything -/
+  /-- MatchFinder.Sound: the new tokens spell out exactly the bytes consumed; a flush call consumes everything
+      unless it stops early (token buffer full), and then it has made progress -/
   gen : ∀ (flush : Bool) (buf : List UInt8) (processed idx : Nat) (mf : MF) (toks : List Tok) (hist : List UInt8),
     idx ≤ buf.length → hist.length = processed → hist.drop (processed - idx) = buf.take idx →
     idx ≤ (L.generate flush buf processed idx mf toks).1 ∧
     (L.generate flush buf processed idx mf toks).1 ≤ buf.length ∧
-    (flush = true → (L.generate flush buf processed idx mf toks).1 = buf.length) ∧
+    (flush = true → (L.generate flush buf processed idx mf toks).1 = buf.length ∨ idx < (L.generate flush buf processed idx mf toks).1) ∧
     ∃ new, (L.generate flush buf processed idx mf toks).2.1 = toks ++ new ∧
       resolve hist new = (buf.drop idx).take ((L.generate flush buf processed idx mf toks).1 - idx)
   /-- the block encoder: the bits handed out plus the new carry are the old carry plus one block (plus the
@@ -89,7 +90,9 @@ def afterGen (L : DynLeaves MF Tok) (flush : Bool) (s : Dyn MF Tok) : Dyn MF Tok
 
 theorem afterGen_inv (L : DynLeaves MF Tok) {mode : Mode} (S : Sound L mode) (D : List UInt8) (flush : Bool)
     (s : Dyn MF Tok) (d : Dst) (hi : DInv L S D s d) :
-    DInv L S D (afterGen L flush s) d ∧ (flush = true → (afterGen L flush s).idx = (afterGen L flush s).buf.length) := by
+    DInv L S D (afterGen L flush s) d ∧
+    (flush = true → (afterGen L flush s).idx = (afterGen L flush s).buf.length ∨ s.idx < (afterGen L flush s).idx) ∧
+    (afterGen L flush s).buf = s.buf := by
   obtain ⟨n, q, hq, hch, hres⟩ := hi.chain
   have hproc := hi.proc
   have hidx := hi.idxLe
@@ -103,7 +106,7 @@ theorem afterGen_inv (L : DynLeaves MF Tok) {mode : Mode} (S : Sound L mode) (D 
     rw [e2, e1, ← hb]
   have hlen : (D.take s.processed).length = s.processed := by rw [List.length_take]; omega
   obtain ⟨g1, g2, g3, new, g4, g5⟩ := S.gen flush s.buf s.processed s.idx s.mf s.tokens (D.take s.processed) hidx hlen hhist
-  refine ⟨⟨hi.healthy, hble, hi.bufEq, g2, ?_, hi.empty, ?_⟩, g3⟩
+  refine ⟨⟨hi.healthy, hble, hi.bufEq, g2, ?_, hi.empty, ?_⟩, g3, rfl⟩
   · show s.processed + ((L.generate flush s.buf s.processed s.idx s.mf s.tokens).1 - s.idx) +
         (s.buf.length - (L.generate flush s.buf s.processed s.idx s.mf s.tokens).1) = D.length
     omega
@@ -187,8 +190,12 @@ theorem compressBlock_nonfinal_unfold (L : DynLeaves MF Tok) (c : Cfg) (flush : 
   rfl
 
 
+theorem afterEnc_frame (L : DynLeaves MF Tok) (last : Bool) (s1 : Dyn MF Tok) :
+    (afterEnc L last s1).idx = s1.idx ∧ (afterEnc L last s1).buf = s1.buf := ⟨rfl, rfl⟩
+
 /-- dynCompressor.compressBlock (not final), healthy destination: never fails, keeps the stream invariant,
-    and with `flush` consumes everything, leaves no pending token and cannot get stuck -/
+    and with `flush` consumes everything, leaves no pending token and cannot get stuck (every round of the
+    `goto again` loop makes progress) -/
 theorem compressBlock_nonfinal (L : DynLeaves MF Tok) {mode : Mode} (S : Sound L mode) (c : Cfg) (D : List UInt8)
     (flush : Bool) (fuel : Nat) (s : Dyn MF Tok) (d : Dst) (hi : DInv L S D s d) :
     (compressBlock L c flush false fuel s d).2.2 ≠ .failed ∧
@@ -196,12 +203,12 @@ theorem compressBlock_nonfinal (L : DynLeaves MF Tok) {mode : Mode} (S : Sound L
       DInv L S D (compressBlock L c flush false fuel s d).1 (compressBlock L c flush false fuel s d).2.1 ∧
       (flush = true → (compressBlock L c flush false fuel s d).1.idx = (compressBlock L c flush false fuel s d).1.buf.length ∧
         (compressBlock L c flush false fuel s d).1.tokens = [])) ∧
-    (flush = true → 0 < fuel → (compressBlock L c flush false fuel s d).2.2 = .ok) := by
+    (flush = true → s.buf.length - s.idx < fuel → (compressBlock L c flush false fuel s d).2.2 = .ok) := by
   induction fuel generalizing s d with
   | zero => simp [compressBlock]
   | succ fuel ih =>
     rw [compressBlock_nonfinal_unfold]
-    obtain ⟨hg, hgf⟩ := afterGen_inv L S D flush s d hi
+    obtain ⟨hg, hgf, hgb⟩ := afterGen_inv L S D flush s d hi
     by_cases h1 : (afterGen L flush s).tokens.length < c.maxTok ∧ ¬ flush
     · rw [if_pos h1]
       refine ⟨by simp, fun _ => ⟨hg, fun hf => absurd hf (by simpa using h1.2)⟩, fun hf => absurd hf (by simpa using h1.2)⟩
@@ -218,8 +225,14 @@ theorem compressBlock_nonfinal (L : DynLeaves MF Tok) {mode : Mode} (S : Sound L
         refine ⟨by simp, fun _ => ⟨he, fun _ => ⟨h2, rfl⟩⟩, fun _ _ => rfl⟩
       · rw [if_neg h2]
         obtain ⟨i1, i2, i3⟩ := ih (afterEnc L false (afterGen L flush s)) d1 he
-        refine ⟨i1, i2, fun hf _ => absurd (hgf hf) h2⟩
-
+        refine ⟨i1, i2, fun hf hfu => i3 hf ?_⟩
+        obtain ⟨f1, f2⟩ := afterEnc_frame L false (afterGen L flush s)
+        rw [f1, f2, hgb]
+        rcases hgf hf with h | h
+        · exact absurd h h2
+        · have := hg.idxLe
+          rw [hgb] at this
+          omega
 
 /-- the sliding-window shift of Accumulate keeps the invariant -/
 theorem shift_inv (L : DynLeaves MF Tok) {mode : Mode} (S : Sound L mode) (c : Cfg) (hw : 0 < c.window) (D : List UInt8)
@@ -431,11 +444,15 @@ theorem compressBlock_final_unfold (L : DynLeaves MF Tok) (c : Cfg) (fuel : Nat)
   simp only [true_and, not_true_eq_false, and_false, if_false, afterGen, afterEnc, encDst, failEnc]
   rfl
 
-/-- dynCompressor.compressBlock(final): healthy destination ⇒ succeeds and completes the stream -/
+/-- dynCompressor.compressBlock(final): healthy destination ⇒ succeeds and completes the stream (non-final
+    blocks while the match finder stops early, then the final block) -/
 theorem compressBlock_final (L : DynLeaves MF Tok) {mode : Mode} (S : Sound L mode) (c : Cfg) (D : List UInt8)
-    (fuel : Nat) (s : Dyn MF Tok) (d : Dst) (hi : DInv L S D s d) :
-    (compressBlock L c true true (fuel + 1) s d).2.2 = .ok ∧
-    ClosedStream mode D (compressBlock L c true true (fuel + 1) s d).2.1.bytes := by
+    (fuel : Nat) (s : Dyn MF Tok) (d : Dst) (hi : DInv L S D s d) (hfu : s.buf.length - s.idx < fuel) :
+    (compressBlock L c true true fuel s d).2.2 = .ok ∧
+    ClosedStream mode D (compressBlock L c true true fuel s d).2.1.bytes := by
+  induction fuel generalizing s d with
+  | zero => omega
+  | succ fuel ih =>
   rw [compressBlock_final_unfold]
   obtain ⟨n, q, hq, hch, hres⟩ := hi.chain
   by_cases h0 : s.buf.length = 0
@@ -455,26 +472,47 @@ theorem compressBlock_final (L : DynLeaves MF Tok) {mode : Mode} (S : Sound L mo
       rw [w3, bytesToBits_append, emptyStored_bits s.carry true _ hpos]
       simp [List.append_assoc]
   · rw [if_neg h0]
-    obtain ⟨hg, hgf⟩ := afterGen_inv L S D true s d hi
-    have hidx := hgf rfl
-    generalize afterGen L true s = s1 at hg hidx
-    obtain ⟨n1, q1, hq1, hch1, hres1⟩ := hg.chain
-    simp only [hidx, decide_true, if_true]
-    obtain ⟨B, hB, _, hfin⟩ := S.enc s1.mf s1.tokens true s1.carry (D.take q1) (bytesToBits d.bytes ++ s1.carry).length
-    obtain ⟨hc0, hbits⟩ := hfin rfl
-    obtain ⟨w1, w2, w3⟩ := writeAll_healthy d hg.healthy (L.encode s1.mf (s1.tokens ++ [L.eob]) true s1.carry).1
-    unfold encDst
-    generalize hwa : d.writeAll (L.encode s1.mf (s1.tokens ++ [L.eob]) true s1.carry).1 = wa at w1 w2 w3
-    obtain ⟨d1, b⟩ := wa
-    simp only at w1 w2 w3
-    subst w1
-    simp only
-    have hp1 : s1.processed = D.length := by have := hg.proc; omega
-    refine ⟨trivial, n1, q1, bytesToBits d.bytes ++ s1.carry, B, List.replicate (padLen (s1.carry ++ B).length) false, hch1, ?_, ?_,
-      by rw [List.length_replicate]; exact padLen_lt _, fun b hb => (List.mem_replicate.mp hb).2⟩
-    · rw [hres1, hp1, List.take_length] at hB; exact hB
-    · rw [w3, bytesToBits_append, hbits]; simp [List.append_assoc]
-
+    obtain ⟨hg, hgf, hgb⟩ := afterGen_inv L S D true s d hi
+    have hprog := hgf rfl
+    have hsidx := hi.idxLe
+    generalize afterGen L true s = s1 at hg hprog hgb
+    by_cases hidx : s1.idx = s1.buf.length
+    · -- everything consumed: this is the final block
+      obtain ⟨n1, q1, hq1, hch1, hres1⟩ := hg.chain
+      simp only [hidx, decide_true, if_true]
+      obtain ⟨B, hB, _, hfin⟩ := S.enc s1.mf s1.tokens true s1.carry (D.take q1) (bytesToBits d.bytes ++ s1.carry).length
+      obtain ⟨hc0, hbits⟩ := hfin rfl
+      obtain ⟨w1, w2, w3⟩ := writeAll_healthy d hg.healthy (L.encode s1.mf (s1.tokens ++ [L.eob]) true s1.carry).1
+      unfold encDst
+      generalize hwa : d.writeAll (L.encode s1.mf (s1.tokens ++ [L.eob]) true s1.carry).1 = wa at w1 w2 w3
+      obtain ⟨d1, b⟩ := wa
+      simp only at w1 w2 w3
+      subst w1
+      simp only
+      have hp1 : s1.processed = D.length := by have := hg.proc; omega
+      refine ⟨trivial, n1, q1, bytesToBits d.bytes ++ s1.carry, B, List.replicate (padLen (s1.carry ++ B).length) false, hch1, ?_, ?_,
+        by rw [List.length_replicate]; exact padLen_lt _, fun b hb => (List.mem_replicate.mp hb).2⟩
+      · rw [hres1, hp1, List.take_length] at hB; exact hB
+      · rw [w3, bytesToBits_append, hbits]; simp [List.append_assoc]
+    · -- the match finder stopped early: a non-final block, then again
+      have hdf : decide (s1.idx = s1.buf.length) = false := by simpa using hidx
+      rw [hdf]
+      have hok := encDst_ok L false s1 d hg.healthy
+      have he := afterEnc_inv L S D s1 d hg
+      generalize hed : encDst L false s1 d = ed at hok he
+      obtain ⟨d1, b⟩ := ed
+      simp only at hok he
+      subst hok
+      simp only
+      rw [if_neg hidx]
+      apply ih _ _ he
+      obtain ⟨f1, f2⟩ := afterEnc_frame L false s1
+      rw [f1, f2, hgb]
+      have hle := hg.idxLe
+      rw [hgb] at hle
+      rcases hprog with h | h
+      · exact absurd h hidx
+      · omega
 
 /-- "the Writer is open and D is everything written to it since it was created or last Reset" -/
 def Tracks (L : DynLeaves MF Tok) {mode : Mode} (S : Sound L mode) (D : List UInt8) (w : WState MF Tok) : Prop :=
@@ -507,10 +545,8 @@ theorem close_tracks (L : DynLeaves MF Tok) {mode : Mode} (S : Sound L mode) (c 
   unfold close
   rw [ht.1]
   simp only
-  have hf : fuelFor w.dyn = (w.dyn.buf.length + 1) + 1 := rfl
-  rw [hf]
-  obtain ⟨c1, c2⟩ := compressBlock_final L S c D (w.dyn.buf.length + 1) w.dyn w.dst ht.2
-  generalize compressBlock L c true true (w.dyn.buf.length + 1 + 1) w.dyn w.dst = cb at c1 c2
+  obtain ⟨c1, c2⟩ := compressBlock_final L S c D (fuelFor w.dyn) w.dyn w.dst ht.2 (by unfold fuelFor; omega)
+  generalize compressBlock L c true true (fuelFor w.dyn) w.dyn w.dst = cb at c1 c2
   obtain ⟨s1, d1, o⟩ := cb
   simp only at c1 c2
   subst c1
